@@ -173,6 +173,10 @@ pub fn chardata(args: &[String]) -> String {
     let chars: Vec<char> = content.chars().collect();
     let (text, ctx) = match kind {
         "text" => (format!("<r>{}</r>", content), false),
+        // the same nodes at the deepest place the parser allows (element nesting 128): whatever a call needs from the parent
+        // (split_text inserts the tail there) must work at the limit as it does anywhere else
+        "deeptext" => (format!("{}<r>{}</r>{}", "<a>".repeat(127), content, "</a>".repeat(127)), false),
+        "deepcdata" => (format!("{}<r><![CDATA[{}]]></r>{}", "<a>".repeat(127), content, "</a>".repeat(127)), false),
         "comment" => (format!("<r><!--{}--></r>", content), false),
         "cdata" => (format!("<r><![CDATA[{}]]></r>", content), false),
         "merged" => {
@@ -199,10 +203,20 @@ pub fn chardata(args: &[String]) -> String {
         Ok(r) => r,
         Err(_) => return "setup-failed".to_string(),
     };
-    let first = match root.first_child() {
+    let mut holder: XmlNode = xml_dom::AsNode::as_node(&root);
+    if kind.starts_with("deep") {
+        for _ in 0..127 {
+            holder = match holder.first_child() {
+                Some(n) => n,
+                None => return "setup-failed".to_string(),
+            };
+        }
+    }
+    let first = match holder.first_child() {
         Some(n) => n,
         None => return "setup-failed".to_string(),
     };
+    let kind = kind.trim_start_matches("deep");
     let cd = match (kind, first) {
         ("text", XmlNode::Text(v)) => CD::Text(v),
         ("comment", XmlNode::Comment(v)) => CD::Comment(v),
